@@ -30,6 +30,7 @@
 (*                        "off" fan-out still to come), "lame" (fan-out     *)
 (*                        done, hub has not processed the unreg yet)        *)
 (*                    ann isLoaded(): contacts loaded and "on" announced    *)
+(*                    supd the actor has a session-update channel           *)
 (*                    att attached sessions; pend sessions whose            *)
 (*                        background-timer update (supd) is not processed   *)
 (*                    cnt[u] perUser[u].online                              *)
@@ -52,6 +53,8 @@ CONSTANTS Users, UserOrder,      \* abstract users and their order (tuple)
           DEV_DisconnectClearsBg, \* Session.cleanUp clears `background` before unsubAll: a never-counted session is un-counted
           DEV_UnlistedDisabledOnline \* procPresReq records an unknown sender as ONLINE even when the entry is created disabled
                                      \* (listed entries obey "if we don't care about updates, keep the other user off")
+          , DEV_NewGrpNoSupd         \* initTopicNewGrp does not create Topic.supd (initTopicGrp and initTopicMe do): until the group is
+                                     \* reloaded, sessions attached in the background never come to the foreground there
           , DEV_LoadContactsClobbers \* loadContacts (first foreground session) overwrites entries learnt while only background
                                      \* sessions were attached: their online flag drops to false without an "off" to the sessions
 
@@ -62,7 +65,7 @@ SubTopics == Groups \cup P2Ps
 
 NoEntry == [l |-> FALSE, on |-> FALSE, en |-> FALSE]
 NoSubP  == [live |-> FALSE, P |-> FALSE]
-OffTop  == [ph |-> "off", ann |-> FALSE, att |-> {}, pend |-> {}, cnt |-> [u \in Users |-> 0]]
+OffTop  == [ph |-> "off", ann |-> FALSE, supd |-> TRUE, att |-> {}, pend |-> {}, cnt |-> [u \in Users |-> 0]]
 FreshTop == [OffTop EXCEPT !.ph = "live"]
 NoZomb  == [has |-> FALSE, to |-> <<>>]
 
@@ -171,7 +174,7 @@ Attach(S, s, x) ==
 \* session.go onBackgroundTimer (session side): the flag flips, every attached actor gets a supd
 BgExpire(S, s) ==
   [S EXCEPT !.bg[s] = FALSE,
-            !.top = [x \in Actors |-> IF s \in S.top[x].att /\ S.bg[s] THEN [S.top[x] EXCEPT !.pend = @ \cup {s}] ELSE S.top[x]]]
+            !.top = [x \in Actors |-> IF s \in S.top[x].att /\ S.bg[s] /\ S.top[x].supd THEN [S.top[x] EXCEPT !.pend = @ \cup {s}] ELSE S.top[x]]]
 \* topic.go:831 sessToForeground (actor side)
 ToFg(S, x, s) ==
   LET u == SessUser[s]
